@@ -93,6 +93,8 @@ type PScn struct {
 	Mod     string             `json:"mod,omitempty"`    // module path (default example.com/m)
 	Custom  map[string][]PItem `json:"custom,omitempty"` // gen@pkgpath@type → what a reaction with render code 'b' renders
 	Lib     bool               `json:"lib,omitempty"`    // add a module-local package <mod>/lib (type Thing) for references
+	Zoo     int                `json:"zoo,omitempty"`    // a second module `zoo` (dot-less path, own go directive ZooGo) in directory zoo, required and replaced by the main module, with packages zoo/p (type P, tagged for rec) and zoo/dep: 1 = zoo/p is an entrypoint beside the others, 2 = zoo/p is the only entrypoint
+	ZooGo   string             `json:"zoo_go,omitempty"`
 	Nested  bool               `json:"nested,omitempty"` // a second module <mod>/sub nested in the tree (own go.mod, replaced by ./sub), whose package <mod>/sub/p the first package imports: not a package of this module, whatever its path looks like
 }
 
@@ -224,6 +226,21 @@ func (s *PScn) materialise(dir string) error {
 		os.WriteFile(filepath.Join(dir, "sub", "go.mod"), []byte("module "+pipeMod+"/sub\n\ngo "+gv+"\n"), 0o644)
 		os.WriteFile(filepath.Join(dir, "sub", "p", "p.go"), []byte("// +gengo:rec\n// +gengo:recx\n// +gengo:rec2\npackage p\n\ntype N int\n"), 0o644)
 		os.WriteFile(filepath.Join(dir, "sub", "p", pipeBase+".other.go"), []byte("package p\n\nvar _ = 0\n"), 0o644)
+	}
+	if s.Zoo > 0 {
+		zg := s.ZooGo
+		if zg == "" {
+			zg = gv
+		}
+		gomod += "\nrequire zoo v0.0.0\n\nreplace zoo => ./zoo\n"
+		os.MkdirAll(filepath.Join(dir, "zoo", "p"), 0o755)
+		os.MkdirAll(filepath.Join(dir, "zoo", "dep"), 0o755)
+		os.WriteFile(filepath.Join(dir, "zoo", "go.mod"), []byte("module zoo\n\ngo "+zg+"\n"), 0o644)
+		os.WriteFile(filepath.Join(dir, "zoo", "p", "p.go"), []byte("// +gengo:rec\npackage p\n\ntype P int\n"), 0o644)
+		os.WriteFile(filepath.Join(dir, "zoo", "dep", "dep.go"), []byte("package dep\n\ntype D int\n\nfunc F() {}\n"), 0o644)
+		// the main module has to use the other one for the go tool to keep the requirement
+		os.MkdirAll(filepath.Join(dir, "usezoo"), 0o755)
+		os.WriteFile(filepath.Join(dir, "usezoo", "u.go"), []byte("package usezoo\n\nimport _ \"zoo/p\"\n"), 0o644)
 	}
 	if err := os.WriteFile(filepath.Join(dir, "go.mod"), []byte(gomod), 0o644); err != nil {
 		return err
@@ -707,6 +724,12 @@ func (s *PScn) executeOnce(dir string, sc *script) (res string, errText string) 
 	}
 	for _, e := range ents {
 		pats = append(pats, "./"+s.Pkgs[e].Dir)
+	}
+	switch s.Zoo {
+	case 1:
+		pats = append(pats, "zoo/p")
+	case 2:
+		pats = []string{"zoo/p"}
 	}
 	var gs []gengo.Generator
 	for _, g := range s.Gens {
